@@ -273,7 +273,10 @@ fn run_leaf(setup: &[Setup], actors: &[Vec<Op>], choose: &mut dyn FnMut(usize, u
     let ids = Arc::new(ids_of(&env));
     let mut sched = Sched::new();
     if let Some(s) = Arc::get_mut(&mut sched) {
-        s.step_timeout = Duration::from_secs(60);
+        // an actor that neither parks again nor finishes within this time is blocked on a lock the
+        // harness does not know about (or the box is overloaded): the leaf is then inconclusive and
+        // is not compared with the model; the oracle still applies (it holds under any schedule)
+        s.step_timeout = Duration::from_secs(4);
     }
     sched.install();
     let mut handles = vec![];
@@ -446,6 +449,7 @@ impl Case {
 }
 
 struct Ctx {
+    deadline: std::time::Instant,
     res: RunResult,
     w: CaseWriter,
     distinct: Distinct,
@@ -453,6 +457,15 @@ struct Ctx {
     leaves: u64,
 }
 impl Ctx {
+    /// wall-clock budget used up, or enough violations collected
+    fn stop(&mut self) -> bool {
+        if std::time::Instant::now() > self.deadline || self.res.oracle_violations.len() >= 20 {
+            self.res.bump("stopped_early_budget_or_violations");
+            true
+        } else {
+            false
+        }
+    }
     fn record(&mut self, case: &Case, leaf: &Leaf, kind: &str) {
         self.res.evaluations += 1;
         self.leaves += 1;
@@ -494,6 +507,9 @@ fn exhaustive(ctx: &mut Ctx, case: &Case, cap: usize, kind: &str) {
     let mut prefix: Vec<usize> = vec![];
     let mut n = 0;
     loop {
+        if ctx.stop() {
+            break;
+        }
         let p = prefix.clone();
         let leaf = run_leaf(&case.setup, &case.actors, &mut |i, _w| p.get(i).cloned().unwrap_or(0));
         ctx.record(case, &leaf, kind);
@@ -523,6 +539,9 @@ fn exhaustive(ctx: &mut Ctx, case: &Case, cap: usize, kind: &str) {
 }
 
 fn random_leaf(ctx: &mut Ctx, case: &Case, r: &mut Rng, kind: &str) {
+    if ctx.stop() {
+        return;
+    }
     let leaf = run_leaf(&case.setup, &case.actors, &mut |_i, w| r.below(w as u64) as usize);
     ctx.record(case, &leaf, kind);
 }
@@ -576,7 +595,8 @@ fn main() {
     let mut res = RunResult::new("C01", &a);
     res.rule = "case = sequential setup history on the real ContinuityStore (messages, runs, branches, sidecar faults, restart) followed by 2-4 concurrent actors (locked appends of 7 kinds, post-to-newest-listed, branch, handoff, replay) run on OS threads under the controlled scheduler; one evaluation = one complete schedule (leaf); exhaustive = every interleaving of two one-call actors at the cont.* points; non-trivial = at least two real scheduling decisions; distinct by (setup, actors, decision list)".into();
     let w = CaseWriter::new(&a.out, "Model.Frames Model.Log Model.ContStore", "check_case_c01", "model_obs_c01", 40);
-    let mut ctx = Ctx { res, w, distinct: Distinct::default(), oracle_only: a.oracle_only(), leaves: 0 };
+    let budget = if a.thorough() { 1200 } else { 300 };
+    let mut ctx = Ctx { deadline: std::time::Instant::now() + Duration::from_secs(budget), res, w, distinct: Distinct::default(), oracle_only: a.oracle_only(), leaves: 0 };
     let mut r = Rng::new(a.seed);
     let thorough = a.thorough();
 
@@ -609,6 +629,11 @@ fn main() {
         let setup = vec![Setup::Msg { th: 0 }, Setup::Branch { th: 0 }];
         let case = Case { setup, actors: vec![vec![x.clone()], vec![y.clone()]] };
         exhaustive(&mut ctx, &case, if thorough { 3000 } else { 120 }, "exhaustive_pair");
+    }
+    // every hook-reachable append function against a message append on the same thread
+    for k in [5u64, 13, 14, 6, 7, 8] {
+        let case = Case { setup: vec![Setup::Msg { th: 0 }], actors: vec![vec![Op::Append { t: k, th: 0 }], vec![Op::Append { t: 4, th: 0 }]] };
+        exhaustive(&mut ctx, &case, if thorough { 3000 } else { 40 }, "exhaustive_each_append_fn");
     }
     // restart variants: every sidecar condition x two appenders, cold next_seq cache
     for x in [None, Some(Fault::Delete), Some(Fault::TearTail), Some(Fault::Empty)] {
